@@ -291,3 +291,56 @@ let diff_lines (model : string list) (impl : string list) : (string * string * s
     | None -> Hashtbl.replace tbl k ("", l)) impl;
   Hashtbl.fold (fun k (m, i) acc -> if norm_ws m = norm_ws i then acc else (proj_of_key k m i, m, i) :: acc) tbl []
   |> List.sort compare
+
+
+(* ---------- queries ---------- *)
+let status_opt s = if s = "-" then None else Some (status_of_int (int_of_string s))
+let atype_opt s = if s = "-" then None else Some (atype_of_int (int_of_string s))
+let lines_of_qres (r : M.qres) : string list option =
+  let strip l = String.sub l 3 (String.length l - 3) in
+  match r with
+  | M.RNotFound -> None
+  | M.RAuctions l -> Some (List.map (fun a -> strip (print_auction a)) l)
+  | M.RBids l -> Some (List.map (fun b -> strip (print_bid b)) l)
+  | M.RAllowed l -> Some (List.map (fun x -> strip (print_allowed x)) l)
+  | M.RVqs l -> Some (List.map (fun v -> strip (print_vq v)) l)
+  | M.RParams p -> Some [Printf.sprintf "P %s %s %s" (print_coins p.M.p_cfee) (print_coins p.M.p_bfee) (string_of_z p.M.p_period)]
+
+(* returns None when the implementation's answer is what the specification of the query says; otherwise
+   a structured identity of the disagreement, and both answers *)
+let check_query (pre : M.state) (op_line : string) (iclass : string) (qr : string list) : (string * string * string) option =
+  match split op_line with
+  | "OP" :: "QUERY" :: rest ->
+      let kv = parse_kv rest in
+      let f k = List.assoc k kv in
+      let who s = match who_of s with M.AGood (_, u) -> u | M.ABad -> n_of_int 999 in
+      let name, q, unfiltered = match f "q" with
+        | "geta" -> "GetAuction", M.QGetAuction (n_of_string (f "a")), None
+        | "lista" -> "ListAuction", M.QListAuction (status_opt (f "st"), atype_opt (f "ty")), None
+        | "getb" -> "GetBid", M.QGetBid (n_of_string (f "a"), n_of_string (f "b")), None
+        | "listb" -> "ListBid", M.QListBid (n_of_string (f "a"), (if f "u" = "-" then None else Some (who (f "u"))),
+                                            (if f "m" = "-" then None else Some (f "m" = "1"))), None
+        | "getl" -> "GetAllowedBidder", M.QGetAllowed (n_of_string (f "a"), n_of_string (f "u")), None
+        | "listl" -> "ListAllowedBidder", M.QListAllowed (n_of_string (f "a")),
+                     Some (List.map (fun x -> let l = print_allowed x in String.sub l 3 (String.length l - 3))
+                             (List.sort (fun (x : M.allowed) y -> compare (int_of_n x.M.al_auction, int_of_n x.M.al_bidder) (int_of_n y.M.al_auction, int_of_n y.M.al_bidder)) pre.M.st_allowed))
+        | "listv" -> "ListVestingQueue", M.QListVesting (n_of_string (f "a")),
+                     Some (List.map (fun v -> let l = print_vq v in String.sub l 3 (String.length l - 3)) pre.M.st_vqs)
+        | "params" -> "Params", M.QParams, None
+        | x -> failwith ("query " ^ x) in
+      let impl = List.map (fun l -> norm_ws (String.sub l 3 (String.length l - 3))) qr in
+      let model = lines_of_qres (M.run_query pre q) in
+      let show = function None -> "notfound" | Some l -> String.concat " | " l in
+      (* allow-list entries are stored by address bytes: compare as sets *)
+      let canon l = if name = "ListAllowedBidder" then List.sort compare l else l in
+      (match model, iclass with
+       | None, "qerr" -> None
+       | Some m, "qok" when canon (List.map norm_ws m) = canon impl -> None
+       | _ ->
+           let key =
+             match unfiltered with
+             | Some all when iclass = "qok" && List.sort compare (List.map norm_ws all) = List.sort compare impl ->
+                 Printf.sprintf "query=%s ignored=auction_id" name
+             | _ -> Printf.sprintf "query=%s wrong-answer" name in
+           Some (key, show model, (if iclass = "qerr" then "error" else String.concat " | " impl)))
+  | _ -> None
